@@ -80,6 +80,13 @@ PAIRS = [
     ('*interface{ Hello() int; m() }', '*interface{ Hello() int; m() }', True),
     ('map[string]struct{ lib.T }', 'map[string]struct{ T lib.T }', False),
     ('[1]struct{ A int `a:"b"` }', '[1]struct{ A int }', True),
+    # variadic-ness when the parameter list itself mentions func types (functional options)
+    ('func(...lib.Opt)', 'func([]lib.Opt)', False),
+    ('func(...func(int))', 'func([]func(int))', False),
+    ('func(...lib.Opt) int', 'func(...lib.Opt) int', False),
+    ('func(func(...int))', 'func(func([]int))', False),
+    ('interface{ M(...lib.Opt) }', 'interface{ M([]lib.Opt) }', True),
+    ('func(int, ...lib.Opt)', 'func(int, []lib.Opt)', False),
 ]
 
 
@@ -127,6 +134,8 @@ type U struct{ A int }
 func (u U) Hello() int { return u.A + 2 }
 
 type Hello interface{ Hello() int }
+
+type Opt func(*int)
 
 type Box[X any] struct{ V X }
 
